@@ -382,6 +382,8 @@ def gen_permute(tier, rng):
                          w_other=np.array([rng.choice([0.25, 1.5, 4.0, -2.0]) for _ in range(r)]))
         if (k // 2) % 3 != 2:
             sigma = list(range(r)); rng.shuffle(sigma)
+            if r >= 3 and k % 5 == 0:
+                sigma = list(range(1, r)) + [0]     # a full cycle: NOT an involution (sigma != sigma^-1), deterministic share
             B = equivalent_copy(A, sigma, scalings(rng, r, nm, "signed"))
             calls.append(dict(As=A, Bs=B, w=w, wref=wref, sigma=sigma, as_list=as_list, pick=pick, stream="equivalent", **extra))
         else:
@@ -600,7 +602,7 @@ def pred_reg(call, out):
     st, v = out
     name, ax = call["fn"], call["axis"]
     yt, yp = frac_arr(call["yt"]), frac_arr(call["yp"])
-    if ax is not None and ax >= yt.ndim:
+    if ax is not None and not (-yt.ndim <= ax < yt.ndim):
         return [] if st == "reject" else [("C20_rejects_malformed", f"{name}: axis {ax} out of range was not rejected")]
     if st != "ok":
         return [(f"C20_{name}_defined", f"valid input raised: {v}")]
@@ -661,25 +663,29 @@ def emit_reg(cid, call, out):
     which = REG.index(call["fn"])
     ax = call["axis"]
     yt, yp = call["yt"], call["yp"]
-    redlen = yt.size if ax is None else (yt.shape[ax] if ax < yt.ndim else 1)
+    redlen = yt.size if ax is None else (yt.shape[ax] if -yt.ndim <= ax < yt.ndim else 1)
     exact = which in (0, 3, 4) and is_pow2(redlen)
     impl = f"(Ok {tensor_lit(np.asarray(v))})" if st == "ok" else "Err"
     st_src, val_src = SRC_FORMS.get(call["fn"], ("unsupported", "not translated"))
     src = f"(Some {val_src})" if st_src == "ok" and (SRC_EVERY <= 1 or cid % SRC_EVERY == 0) else "None"
-    return (f"({cid}%nat, KReg {which}%nat {C.opt(ax, C.nat)} {tensor_lit(yt)} {tensor_lit(yp)} {C.boolc(exact)} {impl} {src})")
+    return (f"({cid}%nat, KReg {which}%nat {C.opt(ax, C.z)} {tensor_lit(yt)} {tensor_lit(yp)} {C.boolc(exact)} {impl} {src})")
 
 
 def gen_reg(tier, rng):
     calls = []
     dims = [1, 2, 3, 4, 5, 8]
-    shapes = [(d,) for d in dims] + [(a, b) for a in (1, 2, 3, 4) for b in (2, 3, 4, 8)] + [(2, 3, 2), (2, 2, 4), (3, 1, 2), (4, 2, 2)]
+    # 2-D and 3-D shapes with coinciding and with pairwise different sizes (a mis-placed keepdims axis broadcasts silently
+    # only when sizes coincide, and raises otherwise)
+    shapes = ([(d,) for d in dims] + [(a, b) for a in (1, 2, 3, 4) for b in (2, 3, 4, 8)] +
+              [(2, 3, 2), (2, 2, 4), (3, 1, 2), (4, 2, 2), (2, 2, 2), (3, 3, 3), (3, 4, 4), (4, 4, 3), (2, 3, 4), (2, 2, 2, 2), (2, 3, 3, 2)])
     if tier == "thorough":
         shapes += [tuple(rng.choice(dims) for _ in range(rng.randint(1, 4))) for _ in range(30)]
     for s in shapes:
         for name in REG:
-            axes = [None] if name == "R2_score" else [None] + list(range(len(s) + 1))
+            # None, EVERY legal axis -ndim .. ndim-1, and the two nearest illegal ones
+            axes = [None] if name == "R2_score" else [None] + list(range(-len(s) - 1, len(s) + 1))
             for ax in axes:
-                reps = 1 if tier == "quick" else 2
+                reps = 1 if (tier == "quick" or (ax is not None and ax < 0)) else 2
                 for _ in range(reps):
                     yt = np.array([rng.randint(-32, 32) / 8 for _ in range(int(np.prod(s)))], dtype=np.float64).reshape(s)
                     yp = np.array([rng.randint(-32, 32) / 8 for _ in range(int(np.prod(s)))], dtype=np.float64).reshape(s)
@@ -1052,7 +1058,12 @@ def run(chk):
             chk.sample({"entry_point": entry_point(sname, call), "stream": call.get("stream"), "outcome": out[0],
                         "output": str(out[1])[:120], "input_shapes": [list(np.asarray(a).shape) for a in call.get("As", [call.get("yt", call.get("M"))])]}, maxn=6)
     lap("implementation_and_predicates")
-    failing, n_eval, broken = C.run_case_shards("C20", HEADER, "case", cases, shard=60 if tier == "quick" else 120)
+    # the cheap regression cases go into larger shards of their own (coqc start-up dominates them)
+    heavy = [c for c, m in zip(cases, meta) if m[0] != "regression"]
+    light = [c for c, m in zip(cases, meta) if m[0] == "regression"]
+    failing, n_eval, broken = C.run_case_shards("C20", HEADER, "case", heavy, shard=60 if tier == "quick" else 120)
+    f2, n2, b2 = C.run_case_shards("C20", HEADER, "case", light, shard=150 if tier == "quick" else 250, tag="reg")
+    failing |= f2; n_eval += n2; broken += b2
     lap("coq_case_shards")
     chk.cov["phase_times"] = laps
     chk.checker_cmds.append("coqc (vm_compute) on generated build/cases/C20/*.v: Corr.C20.failing")
